@@ -55,7 +55,7 @@ TInit == /\ tid \in 1..Len(Traces)
 Advance == /\ l' = l + 1
            /\ UNCHANGED <<vars, tid>>
            /\ (Diag => PrintT(<<"AT", tid, l>>))
-Note(ok, what) == ok \/ PrintT(<<"REJECT", tid, what>>)
+Note(ok, what) == IF ok THEN TRUE ELSE PrintT(<<"REJECT", tid, what>>)
 
 \* ---- codec traces
 CEnc == /\ Tr.kind = "codec" /\ l = 1
